@@ -89,6 +89,10 @@ fn subs() -> Vec<Sub> {
         v.push(Sub { prop: p, name: "reference-fields", rule: "encode-only definitions (struct, tuple struct, generic struct, enum variant; array, map and tagged) whose fields are &T, &mut T, &&T, &&mut T, &mut &T, &&&T references to the values, x every presence combination of 4 optional fields x values: bytes and CborLen identical to the twin definition that owns the values (an absent optional behind a reference is absent)",
                      kind: Kind::Random { quick: 200_000, thorough: 2_000_000, tape: 64, f: refs::reference_fields } });
     }
+    for p in ["C08", "C07", "C09"] {
+        v.push(Sub { prop: p, name: "extreme-indices", rule: "definitions with field, key and variant indices 2^32-1 and 2^32-2 (array and map structs, enum variants, index_only): exact bytes, exact length and round trip; a present field at array index 2^32-1 is observed through a 48-byte sink (header of 2^32 elements, the leading fields, nulls; write error) and its length by arithmetic; a variant index beyond the u32 range on input is rejected",
+                     kind: Kind::Random { quick: 20_000, thorough: 200_000, tape: 16, f: refs::extreme::extreme_indices } });
+    }
     v.push(Sub { prop: "C08", name: "presence", rule: "every generated schema x every presence combination of root-level optional fields (exhaustive up to 6)",
                  kind: Kind::Enumerate { quick: np, thorough: np, f: presence08, complete_quick: true, complete_thorough: true } });
     v.push(Sub { prop: "C09", name: "roundtrip", rule: "value of a generated type: decode(own encoding + junk) == value with skipped fields defaulted, exact consumption, borrowing fields point into the input; the same through a re-framed encoding (indefinite bodies/collections, wider heads); negative edits of the item tree (wrong/removed tag at struct/enum/variant/field level, mandatory field removed, unused variant index) must fail with the documented error class",
